@@ -52,6 +52,13 @@ def _wrap_table(kind, table, names=None):
         return np.array(table, dtype=object)
     if kind == "ndarray_str":
         return np.array(table, dtype=str)
+    if kind == "ndarray_mixed":
+        # numeric-looking cells handed over as ints: the code stringifies cells, so 1 and '1' are one value
+        arr = np.empty((len(table), ncol), dtype=object)
+        for i, row in enumerate(table):
+            for j, c in enumerate(row):
+                arr[i, j] = int(c) if (c.isdigit() and (c == "0" or not c.startswith("0"))) else c
+        return arr
     if kind == "dataframe":
         names = names or [f"c{j}" for j in range(ncol)]
         return pd.DataFrame([list(r) for r in table], columns=names, index=np.arange(len(table))[::-1])
@@ -308,7 +315,7 @@ KINDS = ["ndarray", "dataframe", "listoflists", "ndarray_str"]
 def _moment_cases(draw):
     table, y = draw(_table())
     n = len(table)
-    return {"table": table, "y": y, "kind": draw(st.sampled_from(KINDS)),
+    return {"table": table, "y": y, "kind": draw(st.sampled_from(KINDS + ["ndarray_mixed"])),
             "moment": draw(st.sampled_from(["DemographicParity", "DemographicParity", "EqualizedOdds", "TruePositiveRateParity",
                                             "ErrorRateParity", "FalsePositiveRateParity"])),
             "role": draw(st.sampled_from(["sensitive", "sensitive", "control"])),
